@@ -9,7 +9,7 @@ inductive AutoClear where | none | auto | manual | maxLength
   deriving Repr, DecidableEq, Inhabited
 
 inductive Proc where
-  | speller | selector | navigator | expressEditor | fluidEditor | other | punctuator
+  | speller | selector | navigator | expressEditor | fluidEditor | other | punctuator | keyBinder | asciiComposer
   deriving Repr, DecidableEq, Inhabited
 
 structure Env where
@@ -29,6 +29,14 @@ structure Env where
   punct : PunctCfg := {}
   /-- shape formatter applied to committed text (identity when `full_shape` is off) -/
   format : Bytes → Bytes := id
+  /-- `key_binder/bindings` in configuration order (default: none — the key binder is then a no-op) -/
+  bindings : List KbBinding := []
+  /-- `switches:` (read by the key binder's option actions: an option of a radio group is switched with its group) -/
+  switches : List SwitchDef := []
+  /-- AsciiComposer::bindings_ : `ascii_composer/switch_key` (keycode → style) as LoadConfig leaves it -/
+  asciiKeys : List (Int × AcStyle) := []
+  /-- `ascii_composer/good_old_caps_lock` -/
+  goodOldCapsLock : Bool := false
   /-- ConcreteEngine::Compose as a function of (input, caret, old composition) -/
   recompose : Bytes → Nat → Comp → Comp := fun _ _ c => c
 
